@@ -30,6 +30,11 @@ type W struct {
 	Observers  int  `json:"observers"`
 	// SleepMask: bit i set → task i sleeps 1ms of fake time before its first operation
 	SleepMask uint32 `json:"sleep_mask"`
+	// Twin: a second, independent channel (capacity TwinCap) with one producer
+	// that sends two values and closes, and one consumer that drains to null.
+	// Values of the two channels must never mix.
+	Twin    bool `json:"twin,omitempty"`
+	TwinCap int  `json:"twin_cap,omitempty"`
 }
 
 func gen(r *verifsim.Rng, tier string) (any, hx.Sched) {
@@ -54,6 +59,9 @@ func gen(r *verifsim.Rng, tier string) (any, hx.Sched) {
 	w.Observers = verifsim.Pick(r, []int{0, 0, 1})
 	if r.Intn(4) == 0 {
 		w.SleepMask = uint32(r.Uint64())
+	}
+	if r.Intn(4) == 0 {
+		w.Twin, w.TwinCap = true, r.Intn(3)
 	}
 	s := hx.SwarmSched(r, focus)
 	if w.Level == "L2" {
@@ -123,6 +131,11 @@ func shrink(x any) []any {
 		c.Cap--
 		out = append(out, c)
 	}
+	if w.Twin {
+		c := cp()
+		c.Twin = false
+		out = append(out, c)
+	}
 	return out
 }
 
@@ -134,6 +147,7 @@ type op struct {
 	Ret    string `json:"ret"` // "true" "false" value "null" "pending"
 	Call   int64  `json:"call"`
 	Return int64  `json:"return"`
+	Chan   int    `json:"chan,omitempty"`
 }
 
 type hist struct {
@@ -165,7 +179,7 @@ func exec(t *testing.T, x any, s hx.Sched) *hx.Outcome {
 		return execScript(t, w, s)
 	}
 	o := &hx.Outcome{}
-	ntasks := len(w.Producers) + len(w.Consumers) + w.Closers + w.Observers
+	ntasks := len(w.Producers) + len(w.Consumers) + w.Closers + w.Observers + 2
 	h := &hist{ops: make([][]op, ntasks)}
 	var ch *channel.Channel
 	producersLeft := len(w.Producers)
@@ -238,6 +252,38 @@ func exec(t *testing.T, x any, s hx.Sched) *hx.Outcome {
 		if !w.CloseAfter {
 			startClosers(closerBase)
 		}
+		if w.Twin {
+			ch2 := channel.NewChannel()
+			ch2.Construct(nil, data.NewIntValue(w.TwinCap))
+			tp, tc := ntasks-2, ntasks-1
+			sim.Spawn("TP", func() {
+				for k := 0; k < 2; k++ {
+					v := fmt.Sprintf("twin-%d", k)
+					i := h.begin(tp, "send", v)
+					ok := ch2.Send(data.NewStringValue(v))
+					h.end(tp, i, fmt.Sprint(ok))
+				}
+				i := h.begin(tp, "close", "")
+				ch2.Close()
+				h.end(tp, i, "ok")
+			})
+			sim.Spawn("TC", func() {
+				for {
+					i := h.begin(tc, "recv", "")
+					v, ok := ch2.Receive()
+					if !ok {
+						h.end(tc, i, "null")
+						return
+					}
+					sv, _ := v.(*data.StringValue)
+					if sv == nil {
+						h.end(tc, i, fmt.Sprintf("?%v", v))
+					} else {
+						h.end(tc, i, sv.Value)
+					}
+				}
+			})
+		}
 		id = closerBase + w.Closers
 		for b := 0; b < w.Observers; b++ {
 			id0 := id
@@ -256,8 +302,38 @@ func exec(t *testing.T, x any, s hx.Sched) *hx.Outcome {
 		}
 	})
 	o.Res = res
-	evaluate(o, w, h.all(), res)
+	evaluateAll(o, w, h.all(), res, ntasks)
 	return o
+}
+
+// evaluateAll splits the history by channel (the twin channel's tasks are the
+// last two) and applies the oracles to each channel separately.
+func evaluateAll(o *hx.Outcome, w *W, all []op, res *verifsim.Result, ntasks int) {
+	var main, twin []op
+	for _, p := range all {
+		if w.Twin && p.Task >= ntasks-2 {
+			twin = append(twin, p)
+		} else {
+			main = append(main, p)
+		}
+	}
+	evaluate(o, w, main, res)
+	if w.Twin {
+		hash, sample, nt := o.Hash, o.Sample, o.NonTrivial
+		tw := &W{Level: w.Level, Cap: w.TwinCap, Producers: []int{2}, Consumers: []int{-1}}
+		evaluate(o, tw, twin, res)
+		var ts []string
+		for _, p := range twin {
+			ts = append(ts, fmt.Sprintf("%d:%s(%s)=%s@%d-%d", p.Task, p.Kind, p.Arg, p.Ret, p.Call, p.Return))
+		}
+		o.Hash = verifsim.Mix(hash, o.Hash)
+		o.NonTrivial = nt
+		if sm, ok := sample.(map[string]any); ok {
+			sm["twin_history"] = ts
+		}
+		o.Sample = sample
+		o.Probe("runs_with_two_channels", 1)
+	}
 }
 
 // evaluate applies the C09 oracles to a recorded history.
